@@ -244,6 +244,7 @@ HARNESSES = {
     "unitscript": dict(opt="-O1"),
     "errloc": dict(opt="-O1"),
     "constprobe": dict(opt="-O1"),
+    "parsefuzz": dict(opt="-O1", sanitize=True, compiler="clang++-14"),
     "json": dict(opt="-O1", sanitize=True, compiler="clang++-14", flags=["-fno-sanitize=signed-integer-overflow"]),
     "stl": dict(opt="-O1", sanitize=True, compiler="clang++-14"),
 }
